@@ -35,7 +35,7 @@ NAME_PARTS = ["etc", "vmware", "file1", "a b", "ünï", "lib64", "x" * 40, "conf
 
 
 def budget(tier):
-    return 1500 if tier == "quick" else 50000
+    return 8000 if tier == "quick" else 50000
 
 
 @st.composite
